@@ -3,7 +3,7 @@ import math
 
 import numpy as np
 
-from harness.gen_gp import build_kernel, gen_points
+from harness.gen_gp import build_kernel, gen_points, resource_value
 from harness.numdiff import check_derivative
 from harness.tape import HarnessError, Result, Violation
 
@@ -70,8 +70,8 @@ def case_fit(t):
     gpr = GaussianProcessRegression(kernel=kernel, mean=mean, target_transform=BoxCoxTargetTransform() if boxcox else None, random_seed=0)
     lik = gpr.likelihood
     Xl = gen_points(t, n, d)
-    if klabel == "expdecay":
-        Xl = [x + [float(t.int(1, 9))] for x in Xl]
+    if "expdecay" in klabel:
+        Xl = [x + [resource_value(t, klabel)] for x in Xl]
     X = np.array(Xl, dtype=float).reshape(n, din)
     if boxcox:
         Y = np.array([[math.exp(t.float(-3.0, 2.0))] for _ in range(n)])
